@@ -30,6 +30,7 @@ Reason(e, s) ==
          ELSE LET h == HookAt(s, e.ref) IN
               IF h.ev # "next" \/ h.v # e.v THEN "harness_bad_witness"
               ELSE IF ~(e.inv < h.c /\ h.c < e.ret) THEN "value_not_issued_during_call" ELSE ""
+    [] e.ev = "random_many" -> IF e.not_below_2_15 # 0 \/ e.max_first >= 32768 THEN "random_start_not_below_2_15" ELSE ""
     [] e.ev = "lin" ->      \* hook-less: forced linearization order (by value) must respect real time
          IF e.pos # s.npos THEN "harness_lin_order"
          ELSE IF e.v # (s.start + e.pos) % MOD THEN "value_duplicated_or_skipped"
@@ -50,6 +51,7 @@ Reason(e, s) ==
 Step(e, s) ==
   CASE e.ev = "next" -> [s EXCEPT !.sn = e.v, !.roc = e.roc, !.c = e.c, !.nhook = s.nhook + 1]
     [] e.ev = "call" -> [s EXCEPT !.lastref = e.ref, !.ncalls = s.ncalls + 1]
+    [] e.ev = "random_many" -> IF e.not_below_2_15 # 0 \/ e.max_first >= 32768 THEN "random_start_not_below_2_15" ELSE ""
     [] e.ev = "lin" -> [s EXCEPT !.npos = s.npos + 1, !.maxinv = IF e.inv > s.maxinv THEN e.inv ELSE s.maxinv]
     [] OTHER -> s
 
